@@ -19,7 +19,7 @@ func main() {
 	debugCmd := flag.String("debug", "", "debug command")
 	flag.Parse()
 	debug.SetGCPercent(800)
-	debug.SetMemoryLimit(20 << 30)
+	debug.SetMemoryLimit(10 << 30)
 	if t := os.Getenv("VERIF_TIER"); t != "" && *tier == "" {
 		*tier = t
 	}
